@@ -4,6 +4,7 @@ C05 — helper lemmas (property theorems are in Props.lean).
 import PorepyVerif.C05.Model
 import Mathlib.Data.List.Basic
 import Mathlib.Data.List.Perm.Basic
+import Mathlib.Data.List.Nodup
 
 namespace PorepyVerif.C05
 
@@ -546,5 +547,271 @@ theorem identify_ok {e : Env} {s : State} (h : Inv e s) (d : Nat) (hd : d < numD
     simp only [List.map_cons, List.map_nil]
     rw [← hvid, filter_id_singleton s.vars h.idsLt v hv]
   · rw [hvid]; exact inv_numberOf_idx h k hklen
+
+/-! ### `np.sort` -/
+
+theorem perm_insertSorted (a : Nat) (l : List Nat) : (insertSorted a l).Perm (a :: l) := by
+  induction l with
+  | nil => exact List.Perm.refl _
+  | cons b l ih =>
+    unfold insertSorted
+    split
+    · exact List.Perm.refl _
+    · exact (List.Perm.cons b ih).trans (List.Perm.swap a b l)
+
+theorem perm_isort (l : List Nat) : (isort l).Perm l := by
+  induction l with
+  | nil => exact List.Perm.refl _
+  | cons a l ih => exact (perm_insertSorted a (isort l)).trans (List.Perm.cons a ih)
+
+theorem sorted_insertSorted (a : Nat) (l : List Nat) (h : l.Pairwise (· ≤ ·)) :
+    (insertSorted a l).Pairwise (· ≤ ·) := by
+  induction l with
+  | nil => simp [insertSorted]
+  | cons b l ih =>
+    unfold insertSorted
+    split
+    · rename_i hab
+      refine List.pairwise_cons.mpr ⟨?_, h⟩
+      intro c hc
+      rcases List.mem_cons.mp hc with rfl | hc
+      · exact hab
+      · exact Nat.le_trans hab ((List.pairwise_cons.mp h).1 c hc)
+    · rename_i hab
+      refine List.pairwise_cons.mpr ⟨?_, ih (List.pairwise_cons.mp h).2⟩
+      intro c hc
+      rcases List.mem_cons.mp ((perm_insertSorted a l).mem_iff.mp hc) with rfl | hc
+      · omega
+      · exact (List.pairwise_cons.mp h).1 c hc
+
+theorem sorted_isort (l : List Nat) : (isort l).Pairwise (· ≤ ·) := by
+  induction l with
+  | nil => simp [isort]
+  | cons a l ih => exact sorted_insertSorted a _ ih
+
+theorem strict_of_sorted_nodup (l : List Nat) (h : l.Pairwise (· ≤ ·)) (hn : l.Nodup) :
+    l.Pairwise (· < ·) :=
+  (h.and hn).imp (fun ⟨a, b⟩ => Nat.lt_of_le_of_ne a b)
+
+/-! ### blocks are disjoint; `dofs_of` lists exactly the owned indices -/
+
+theorem owns_unique {e : Env} {s : State} (h : Inv e s) (i i' d : Nat) (h1 : owns s i d) (h2 : owns s i' d) :
+    i = i' := by
+  obtain ⟨b, hb, l1, u1⟩ := h1
+  obtain ⟨b', hb', l2, u2⟩ := h2
+  have hbb : b = b' := by
+    rcases Nat.lt_trichotomy b b' with hlt | heq | hgt
+    · have := cum_mono s.sizes (b + 1) b' (by omega); omega
+    · exact heq
+    · have := cum_mono s.sizes (b' + 1) b (by omega); omega
+  subst hbb
+  rw [h.numbered] at hb hb'
+  have a1 := (numberOf_numberFrom_some 0 _ _ _ hb).2.2
+  have a2 := (numberOf_numberFrom_some 0 _ _ _ hb').2.2
+  rw [a1] at a2
+  exact Option.some.inj a2
+
+theorem mem_blockRange (sizes : List Nat) (b d : Nat) :
+    d ∈ blockRange sizes b ↔ cum sizes b ≤ d ∧ d < cum sizes (b + 1) := by
+  unfold blockRange
+  rw [List.mem_range'_1]
+  have := cum_le_succ sizes b
+  omega
+
+theorem mem_dofsOfIds (s : State) (sel l : List Nat) (h : dofsOfIds s sel = .ok l) (d : Nat) :
+    d ∈ l ↔ ∃ i ∈ sel, owns s i d := by
+  induction sel generalizing l with
+  | nil =>
+    simp only [dofsOfIds, Except.ok.injEq] at h
+    subst h; simp
+  | cons i r ih =>
+    unfold dofsOfIds at h
+    cases hb : numberOf s.numbers i with
+    | none => simp [hb] at h
+    | some b =>
+      cases hr : dofsOfIds s r with
+      | error err => simp [hb, hr] at h
+      | ok l' =>
+        simp only [hb, hr, Except.ok.injEq] at h
+        subst h
+        rw [List.mem_append, ih l' hr, mem_blockRange]
+        constructor
+        · rintro (hd | ⟨j, hj, ho⟩)
+          · exact ⟨i, List.mem_cons_self, b, hb, hd.1, hd.2⟩
+          · exact ⟨j, List.mem_cons_of_mem _ hj, ho⟩
+        · rintro ⟨j, hj, ho⟩
+          rcases List.mem_cons.mp hj with rfl | hj
+          · obtain ⟨b2, hb2, lo, hi⟩ := ho
+            rw [hb] at hb2
+            cases hb2
+            exact Or.inl ⟨lo, hi⟩
+          · exact Or.inr ⟨j, hj, ho⟩
+
+theorem nodup_dofsOfIds {e : Env} {s : State} (hI : Inv e s) (sel l : List Nat) (hn : sel.Nodup)
+    (h : dofsOfIds s sel = .ok l) : l.Nodup := by
+  induction sel generalizing l with
+  | nil =>
+    simp only [dofsOfIds, Except.ok.injEq] at h
+    subst h; simp
+  | cons i r ih =>
+    unfold dofsOfIds at h
+    cases hb : numberOf s.numbers i with
+    | none => simp [hb] at h
+    | some b =>
+      cases hr : dofsOfIds s r with
+      | error err => simp [hb, hr] at h
+      | ok l' =>
+        simp only [hb, hr, Except.ok.injEq] at h
+        subst h
+        rw [List.nodup_append]
+        refine ⟨List.nodup_range' 1, ih l' (List.nodup_cons.mp hn).2 hr, ?_⟩
+        intro x hx y hy hxy
+        subst hxy
+        obtain ⟨j, hj, ho⟩ := (mem_dofsOfIds s r l' hr x).mp hy
+        have hx' := (mem_blockRange s.sizes b x).mp hx
+        have : i = j := owns_unique hI i j x ⟨b, hb, hx'.1, hx'.2⟩ ho
+        subst this
+        exact (List.nodup_cons.mp hn).1 hj
+
+theorem dofsOfIds_isOk (s : State) (sel : List Nat) (h : ∀ i ∈ sel, i ∈ s.numbers.map (·.1)) :
+    ∃ l, dofsOfIds s sel = .ok l := by
+  induction sel with
+  | nil => exact ⟨[], rfl⟩
+  | cons i r ih =>
+    obtain ⟨l', hl'⟩ := ih (fun j hj => h j (List.mem_cons_of_mem _ hj))
+    obtain ⟨b, hb⟩ := Option.isSome_iff_exists.mp ((numberOf_isSome_iff _ _).mpr (h i List.mem_cons_self))
+    exact ⟨blockRange s.sizes b ++ l', by simp [dofsOfIds, hb, hl']⟩
+
+/-! ### cluster order -/
+
+theorem pairwise_idxOf_lt (l : List Nat) (hn : l.Nodup) :
+    l.Pairwise (fun a b => l.idxOf a < l.idxOf b) := by
+  rw [List.pairwise_iff_getElem]
+  intro i j hi hj hij
+  rw [hn.idxOf_getElem i hi, hn.idxOf_getElem j hj]
+  exact hij
+
+theorem clusterOrder_pairwise (e : Env) (hn : e.order.Nodup) (vars : List Var)
+    (hp : (vars.map (·.id)).Pairwise (· < ·)) :
+    (clusterOrder e vars).Pairwise (fun v w =>
+      gridPos e v.grid < gridPos e w.grid ∨ (v.grid = w.grid ∧ v.id < w.id)) := by
+  unfold clusterOrder
+  rw [← List.flatMap_append, List.pairwise_flatMap]
+  constructor
+  · intro g _
+    have hp' : vars.Pairwise (fun a b => a.id < b.id) := List.pairwise_map.mp hp
+    refine List.Pairwise.imp_of_mem ?_ (hp'.filter _)
+    intro a b ha hb hab
+    have ga : a.grid = g := by simpa using (List.mem_filter.mp ha).2
+    have gb : b.grid = g := by simpa using (List.mem_filter.mp hb).2
+    exact Or.inr ⟨ga.trans gb.symm, hab⟩
+  · refine (pairwise_idxOf_lt _ hn).imp ?_
+    intro g1 g2 hlt x hx y hy
+    have gx : x.grid = g1 := by simpa using (List.mem_filter.mp hx).2
+    have gy : y.grid = g2 := by simpa using (List.mem_filter.mp hy).2
+    left
+    unfold gridPos Env.order
+    rw [gx, gy]; exact hlt
+
+/-! ### `Clustered` and `KeysUnique` are preserved -/
+
+theorem clustered_cluster (e : Env) (s : State) : Clustered e (cluster e s) := by
+  simp [Clustered, cluster]
+
+theorem addLoop_known (e : Env) (name : Nat) (dof : List (Nat × Nat)) (isSub : Bool) (gs : List Nat)
+    (s : State) (hk : ∀ g ∈ gs, g ∈ (if isSub then e.subs else e.intfs)) :
+    (addLoop e name dof isSub s gs).2 = none := by
+  induction gs generalizing s with
+  | nil => rfl
+  | cons g gs ih =>
+    rw [addLoop, if_pos (hk g List.mem_cons_self)]
+    exact ih _ (fun x hx => hk x (List.mem_cons_of_mem _ hx))
+
+theorem createOn_clustered (e : Env) (s : State) (name : Nat) (dof : List (Nat × Nat)) (isSub : Bool)
+    (gs : List Nat) (hk : ∀ g ∈ gs, g ∈ (if isSub then e.subs else e.intfs)) (h : Clustered e s) :
+    Clustered e (createOn e s name dof isSub gs).1 := by
+  unfold createOn
+  split
+  · exact h
+  · have hnone := addLoop_known e name dof isSub gs s hk
+    split
+    · rename_i s' err heq
+      rw [heq] at hnone; cases hnone
+    · split <;> exact clustered_cluster e _
+
+theorem removeLoop_clustered (e : Env) (ids : List Nat) (s : State) (h : Clustered e s) :
+    Clustered e (removeLoop e s ids).1 := by
+  induction ids generalizing s with
+  | nil => exact h
+  | cons i r ih =>
+    unfold removeLoop
+    split
+    · exact ih _ (clustered_cluster e _)
+    · exact h
+
+theorem clustered_store (e : Env) (s : State) (st : Store) (h : Clustered e s) :
+    Clustered e { s with store := st } := h
+
+theorem addLoop_keys (e : Env) (name : Nat) (dof : List (Nat × Nat)) (isSub : Bool) (gs : List Nat)
+    (s : State) (hK : KeysUnique s) (hfree : ∀ v ∈ s.vars, v.name = name → v.grid ∉ gs)
+    (hn : gs.Nodup) : KeysUnique (addLoop e name dof isSub s gs).1 := by
+  induction gs generalizing s with
+  | nil => exact hK
+  | cons g gs ih =>
+    by_cases hg : g ∈ (if isSub then e.subs else e.intfs)
+    · rw [addLoop, if_pos hg]
+      apply ih
+      · show (s.vars ++ [_]).Pairwise _
+        rw [List.pairwise_append]
+        refine ⟨hK, by simp, ?_⟩
+        intro v hv w hw
+        simp only [List.mem_singleton] at hw
+        subst hw
+        rintro ⟨h1, h2⟩
+        exact hfree v hv h1 (h2 ▸ List.mem_cons_self)
+      · intro v hv hname
+        rcases List.mem_append.mp hv with hv | hv
+        · exact fun hm => hfree v hv hname (List.mem_cons_of_mem _ hm)
+        · simp only [List.mem_singleton] at hv
+          subst hv
+          exact (List.nodup_cons.mp hn).1
+      · exact (List.nodup_cons.mp hn).2
+    · rw [addLoop, if_neg hg]
+      by_cases h2 : g ∈ (if isSub then e.intfs else e.subs)
+      · rw [if_pos h2]; exact hK
+      · rw [if_neg h2]; exact hK
+
+theorem keys_cluster (e : Env) (s : State) (h : KeysUnique s) : KeysUnique (cluster e s) := h
+
+theorem createOn_keys (e : Env) (s : State) (name : Nat) (dof : List (Nat × Nat)) (isSub : Bool)
+    (gs : List Nat) (hn : gs.Nodup) (h : KeysUnique s) : KeysUnique (createOn e s name dof isSub gs).1 := by
+  unfold createOn
+  split
+  · exact h
+  · rename_i hany
+    have hfree : ∀ v ∈ s.vars, v.name = name → v.grid ∉ gs := by
+      intro v hv hname hm
+      apply hany
+      rw [List.any_eq_true]
+      exact ⟨v, hv, by simp [hname, hm]⟩
+    have := addLoop_keys e name dof isSub gs s h hfree hn
+    split
+    · rename_i s' err heq
+      rw [heq] at this; exact this
+    · rename_i s' heq
+      rw [heq] at this
+      exact keys_cluster e s' this
+
+theorem removeLoop_keys (e : Env) (ids : List Nat) (s : State) (h : KeysUnique s) :
+    KeysUnique (removeLoop e s ids).1 := by
+  induction ids generalizing s with
+  | nil => exact h
+  | cons i r ih =>
+    unfold removeLoop
+    split
+    · apply ih
+      apply keys_cluster
+      exact List.Pairwise.sublist List.filter_sublist h
+    · exact h
 
 end PorepyVerif.C05
